@@ -11,6 +11,7 @@ use vstd::prelude::*;
 use super::na::*;
 use super::linalg::*;
 use super::polyid::*;
+use super::detmul::*;
 
 // ---- scalar facts --------------------------------------------------------------------------------
 pub proof fn lemma_cancel(k: real, x: real, y: real)
@@ -159,11 +160,10 @@ pub open spec fn orthonormal2(u: V3, w: V3) -> bool { vnorm2(u) == 1real && vnor
 /// the matrix whose ROWS are u, w, u x w
 pub open spec fn triad_rows(u: V3, w: V3) -> M3 { M3 { a: u, b: w, c: vcross(u, w) } }
 
-/// the triad (u, w, u x w) of an orthonormal pair is an orthogonal matrix (rows AND columns orthonormal); that its
-/// determinant is +1 (right-handedness) is not mechanised
+/// the triad (u, w, u x w) of an orthonormal pair is a proper rotation matrix: rows AND columns orthonormal, determinant +1 (right-handed)
 pub proof fn lemma_triad_proper(u: V3, w: V3)
     requires orthonormal2(u, w)
-    ensures proper(triad_rows(u, w)), proper(mtr(triad_rows(u, w)))
+    ensures proper(triad_rows(u, w)), proper(mtr(triad_rows(u, w))), mdet(triad_rows(u, w)) == 1real, mdet(mtr(triad_rows(u, w))) == 1real
 {
     let t = vcross(u, w); let m = triad_rows(u, w);
     // rows orthonormal: M M^T == I
@@ -193,6 +193,9 @@ pub proof fn lemma_triad_proper(u: V3, w: V3)
     assert(g.b.x == 0real && g.c.y == 0real && g.a.z == 0real);
     assert(g == mid());
     lemma_mtr_mtr(m);
+    // determinant: det(rows u, w, u x w) == |u x w|^2 == 1, and det(M^T) == det(M)
+    lemma_det_triad(u, w); lemma_det_tr(m);
+    assert(mdet(m) == det3(u, w, t));
 }
 
 // ---- the triad of a triangle ------------------------------------------------------------------------
@@ -266,7 +269,7 @@ pub proof fn lemma_triad_coords(a: V3, b: V3, la: real, ln: real, e1: V3, e2: V3
 }
 
 /// C17, the geometric core: for congruent triangles (edge vectors a, b and c, d with equal lengths and equal inner product) the
-/// matrix R = D * B^T built from the two triads is orthogonal and maps a onto c and b onto d.
+/// matrix R = D * B^T built from the two triads is a proper rotation (orthogonal, determinant +1) and maps a onto c and b onto d.
 /// B = columns (e1, e2, e1 x e2), D = columns (d1, d2, d1 x d2).
 pub proof fn lemma_frame_rotation(a: V3, b: V3, la: real, ln: real, e1: V3, e2: V3, c: V3, d: V3, lc: real, lm: real, d1: V3, d2: V3)
     requires
@@ -274,7 +277,7 @@ pub proof fn lemma_frame_rotation(a: V3, b: V3, la: real, ln: real, e1: V3, e2: 
         vnorm2(a) == vnorm2(c), vnorm2(b) == vnorm2(d), vdot(a, b) == vdot(c, d),
     ensures ({
         let bm = mtr(triad_rows(e1, e2)); let dm = mtr(triad_rows(d1, d2)); let r = mmul(dm, mtr(bm));
-        proper(r) && mvec(r, a) == c && mvec(r, b) == d
+        proper(r) && mdet(r) == 1real && mvec(r, a) == c && mvec(r, b) == d
     })
 {
     let bt = triad_rows(e1, e2); let dt = triad_rows(d1, d2);
@@ -284,6 +287,8 @@ pub proof fn lemma_frame_rotation(a: V3, b: V3, la: real, ln: real, e1: V3, e2: 
     lemma_triad_orthonormal(a, b, la, ln, e1, e2); lemma_triad_orthonormal(c, d, lc, lm, d1, d2);
     lemma_triad_proper(e1, e2); lemma_triad_proper(d1, d2);
     lemma_proper_mul(dm, bt);
+    lemma_det_mul(dm, bt);
+    assert(mdet(r) == 1real) by { assert(1real * 1real == 1real); }
     // equal lengths
     lemma_sqrt_unique(la, lc);
     lemma_lagrange(a, b); lemma_lagrange(c, d);
